@@ -183,7 +183,7 @@ class ModbusAsciiFramer(ModbusFramer):
                 else:
                     _logger.error("Not a valid unit id - {}, "
                                   "ignoring!!".format(self._header['uid']))
-                    self.resetFrame()
+                    self.advanceFrame()
             elif self._header['len']:
                 # a complete frame failed its check: skip it, keep what follows
                 self.advanceFrame()
